@@ -1,7 +1,7 @@
 (* Extraction of the executable models (ExtrOcamlBasic only: bool, option,
    list, prod, unit, sumbool map to OCaml's; Z/N/positive stay inductive). *)
 From Coq Require Import Extraction ExtrOcamlBasic.
-From STS Require Import Model.Ranges Model.Chunk Model.Queue Model.LogM Model.Stage Model.Sender Model.Conf Model.Auth Model.Wire Model.Prune.
+From STS Require Import Model.Ranges Model.Chunk Model.Queue Model.LogM Model.Stage Model.Sender Model.Conf Model.Auth Model.Wire Model.Prune Model.Cache.
 Extraction Language OCaml.
 Set Extraction Optimize.
 Extraction "model.ml"
@@ -18,4 +18,5 @@ Extraction "model.ml"
   effective reencode parse_tag propagate_tags file_tag
   handle_validate is_local clean_rel clean_abs resolve names_local
   enc_header decode decode_header split_spec translate
-  prune.
+  prune
+  cadd cdone creset cremove cpersist crestart cget empty_cache cstep c_other_version.
